@@ -27,6 +27,15 @@ func (e *E2eProcessingLatencyAggregate) UnmarshalJSON(b []byte) error {
 		return err
 	}
 
+	// drop null entries (an upstream may send "percentiles":[null])
+	percentiles := resp.Percentiles[:0]
+	for _, p := range resp.Percentiles {
+		if p != nil {
+			percentiles = append(percentiles, p)
+		}
+	}
+	resp.Percentiles = percentiles
+
 	for _, p := range resp.Percentiles {
 		p["min"] = p["value"]
 		p["max"] = p["value"]
@@ -54,6 +63,10 @@ func (e *E2eProcessingLatencyAggregate) Less(i, j int) bool {
 // Add merges e2 into e by averaging the percentiles
 func (e *E2eProcessingLatencyAggregate) Add(e2 *E2eProcessingLatencyAggregate) {
 	e.Addr = "*"
+	if e2 == nil {
+		// the node reported no latency data for this topic/channel
+		return
+	}
 	p := e.Percentiles
 	e.Count += e2.Count
 	for _, value := range e2.Percentiles {
